@@ -5,7 +5,7 @@ import sys
 import time
 
 from . import core, engine, roles as roles_mod
-from . import search, nfa, da, ser, cli, pure, lazy
+from . import search, nfa, da, ser, cli, pure, lazy, helper
 
 TRUSTED = [
     "L1: for a power of two B, x < kB and c < B imply x ^ c < kB; next_power_of_two(n) >= n",
@@ -52,7 +52,10 @@ def construction_rules(ctx, R, E):
     nfa.rule_fail_passes(ctx, R, E.NR)
     da.rule_placement(ctx, R, E.NR, E.BR, rules={"DA-EDGE", "DA-BASE", "B-BASE", "B-EXT", "B-FAIL", "B-OPOS", "KNOB-SAN"})
     da.rule_find_base(ctx, R, E.NR, E.BR)
-    da.rule_dispatch(ctx, R, E.NR, E.BR, rules={"NFA-DISPATCH"})
+    da.rule_dispatch(ctx, R, E.NR, E.BR, rules={"NFA-DISPATCH", "CW-NB", "VALID-PROP"})
+    nfa.rule_add(ctx, R, E.NR, rules={"VAL-ADD", "STAT-NS"})
+    nfa.rule_num_bytes(ctx, R, E.NR)
+    da.rule_build_entry(ctx, R, E.NR, E.BR, rules={"B-MOVE"})
 
 
 def run_C01(ctx, R):
@@ -62,6 +65,7 @@ def run_C01(ctx, R):
     construction_rules(ctx, R, E)
     da.rule_sanitiser(ctx, R, E.NR, E.BR)
     da.rule_array_growth(ctx, R, E.NR, E.BR)
+    helper.rule_helper(ctx, R)
 
 
 def run_C02(ctx, R):
@@ -151,6 +155,7 @@ def run_C10(ctx, R):
 
 def run_C11(ctx, R):
     E = Env(ctx, R)
+    helper.rule_helper(ctx, R)
     da.rule_array_growth(ctx, R, E.NR, E.BR)
     da.rule_sanitiser(ctx, R, E.NR, E.BR)
     da.rule_placement(ctx, R, E.NR, E.BR, rules={"KNOB-SAN", "DA-BASE", "B-EXT"})
